@@ -89,18 +89,32 @@ def gecko_reader_ok(rb):
 
 
 def raw_decoder_rule(F, rep, rule="entry.raw-decoder"):
-    """raw start/end: the whole entry (read to its end, whatever its length) is handed to the .slp decoders"""
-    for fn, dec in (("io::peppi::de::read_peppi_start", "io::slippi::de::game_start"), ("io::peppi::de::read_peppi_end", "io::slippi::de::game_end")):
-        b = F.body(fn)
+    """raw start/end: the whole entry (read to its end, whatever its length) is handed to the .slp decoders — wherever in the
+    .slpp reader the decoder is called from (a helper per entry, or the arm of the entry loop itself)"""
+    import reach
+    G = reach.Graph(F)
+    R = [o for o in G.reachable([peppifmt.READ]) if o.startswith("io::peppi::")]
+    for arm_name, dec in (("start.raw", "io::slippi::de::game_start"), ("end.raw", "io::slippi::de::game_end")):
+        sites = []
+        for o in R:
+            b = F.body(o)
+            if b is None:
+                continue
+            root = b["tir"]["value"]
+            for x in tir.walk(root):
+                if x.get("k") == "Call" and declared(x) == dec:
+                    sites.append((o, root, x))
         whole = False
-        filled = None
-        for x in tir.walk(b["tir"]["value"]):
-            if x.get("k") == "MethodCall" and x["method"] == "read_to_end":
-                filled = L.local_name(strip(x["args"][0]))
-            if x.get("k") == "Call" and declared(x) == dec:
-                a = strip(x["args"][0])     # strip peels `&mut`, `&x[..]` and `.as_slice()`: the whole buffer
-                whole = L.local_name(a) == filled and filled is not None
-        rep.ob(rule, whole, fn, "decoder", "%s must pass the whole entry to %s (the entry's own length decides how much is decoded, as the payload table does in a .slp)" % (fn, dec))
+        where = peppifmt.READ
+        if len(sites) == 1:
+            o, root, x = sites[0]
+            where = o
+            a = strip(x["args"][0]) if x.get("args") else {}     # strip peels `&mut`, `&x[..]` and `.as_slice()`: the whole buffer
+            aid = a.get("id") if a.get("k") == "Path" and a.get("res") == "local" else None
+            fills = [y for y in tir.walk(root) if y.get("k") == "MethodCall" and y["method"] == "read_to_end" and y.get("args") and strip(y["args"][0]).get("id") == aid]
+            others = [y for y in tir.walk(root) if y.get("k") == "MethodCall" and strip(y["recv"]).get("id") == aid and (y["recv"].get("aty") or "").startswith("&mut") and y["method"] not in ("read_to_end",)]
+            whole = aid is not None and len(fills) == 1 and not others
+        rep.ob(rule, whole, where, arm_name + ".decoder", "the %s entry must be read to its end and passed whole to %s (the entry's own length decides how much is decoded, as the payload table does in a .slp); %d call site(s)" % (arm_name, dec, len(sites)))
 
 
 def gecko_writer_ok(F, wb):
@@ -158,6 +172,29 @@ def export_args_ok(wb):
             p = env.resolve(c["args"][1])
             return v == g + ".start.slippi.version" and p.get("k") == "Call" and declared(p) == "game::port_occupancy" and tir.place(p["args"][0]) == g + ".start"
     return False
+
+
+PINNED_SLPP_REFUSALS = 9
+
+
+def slpp_refusals_rule(F, rep, rule="reader.no-new-refusal"):
+    """every .slpp the writer produces must be read back: the reader's own refusals (constructions of the crate's InvalidData
+    error in io::peppi::de) are the structural ones of the pinned tree — version too old, missing / duplicated / truncated
+    Arrow batch, missing peppi.json / start / frames, metadata that is not a map. One more is a new way to reject an archive;
+    whether it can hit a writer output cannot be established here, so it is reported (fail closed)."""
+    n = 0
+    sites = []
+    for b in F.fn_bodies():
+        if not b["path"].startswith("io::peppi::de"):
+            continue
+        for x in tir.walk(b["tir"]["value"]):
+            if x.get("k") in ("Call", "Struct") and "Error::InvalidData" in (x.get("path") or declared(x) or ""):
+                n += 1
+                sites.append(tir.sp(x))
+    rep.ob(rule, n <= PINNED_SLPP_REFUSALS, peppifmt.READ, "refusals",
+           "cannot-establish: the .slpp reader constructs %d refusals, %d on the pinned tree (%s): a new refusal may reject archives the writer produces" % (n, PINNED_SLPP_REFUSALS, ", ".join(sites)),
+           sample={"refusal_sites": sites})
+    rep.floor("refusal sites in the .slpp reader", n, 6)
 
 
 def single_batch_ok(wb):
@@ -250,6 +287,7 @@ def compression_rule(F, rep):
     rep.ob("arrow.single-batch", "multiple batches" in "".join(str(x.get("v")) for x in tir.walk(F.body("io::peppi::de::read_arrow_frames")["tir"]["value"]) if x.get("k") == "Lit" and x.get("lit") == "str") or "Some(_) => return" in rt,
            "io::peppi::de::read_arrow_frames", "batches", "exactly one record batch is written and expected")
     wt = tir.pretty(wb["tir"]["value"])
+    slpp_refusals_rule(F, rep)
     sb_ok, sb_why = single_batch_ok(wb)
     rep.ob("arrow.single-batch", sb_ok, peppifmt.WRITE, "batches", "the .slpp writer must emit the frames as exactly one record batch (the reader rejects a second one): %s" % sb_why)
     rep.ob("arrow.version", export_args_ok(wb), peppifmt.WRITE, "export-args",
@@ -318,6 +356,12 @@ def run(F, rep, tier):
     model.rule_exact(rep, M1)
     model.rule_L3(rep, M1, sibs=("from",))
     emission.rule_emission(F, rep, M1)
+    from props import C05 as _C05
+    _C05.end_size_rule(F, rep)
+    # the reader must accept every well-formed file: the block decoders refuse nothing the spec's value domains allow
+    import model as _model
+    _C05.end_rule(F, rep, _model.load_spec("start_spec.json"))
+    _C05.no_extra_refusal_rule(F, rep)
     C04.structure_rules(F, G, rep, M1)
     # absent metadata stays absent through .slpp (null -> None, object -> Some(map), slot takes the Option unchanged)
     from props import C16
